@@ -159,7 +159,7 @@ def main(argv):
         for g in range(ngen):
             size = "heavy" if g % 4 != 3 else "small"
             cands.append({"name": "g%03d.as" % g, "text": progen.gen_program(vsim.Rng(seed, "c09-gen", g), size=size,
-                                                                              force=("frag",) if g % 4 == 1 else ()).encode(),
+                                                                              force=("frag",) if g % 4 == 1 else (("chain",) if g % 4 == 2 else ())).encode(),
                           "origin": "generated"})
         cs = worlds.corpus(max_bytes=5000)
         rngc = vsim.Rng(seed, "c09-corpus")
